@@ -656,3 +656,425 @@ Proof.
   - intros c. now rewrite B, S.
   - now rewrite A.
 Qed.
+
+(* ------------------------------------------------------------------ the merge, for every heap *)
+Definition kidchans (h : heap) (c2 : nat) : list nat :=
+  flat_map (fun k => n_chans (nd h k)) (n_children (nd h c2)).
+Definition ckey (h : heap) (c : nat) : panel * string := (c_panel (ch h c), c_label (ch h c)).
+
+(* i: the local composite; c2: the copy that came back (a separate object graph) *)
+Record merge_pre (h : heap) (i c2 : nat) : Prop := mkMP {
+  mp_ne : i <> c2;
+  mp_kids_c2 : ~ In c2 (n_children (nd h c2));
+  mp_kids_i : ~ In i (n_children (nd h c2));
+  mp_old : forall k, In k (n_children (nd h i)) -> k <> i /\ k <> c2 /\ ~ In k (n_children (nd h c2));
+  mp_par : forall k, In k (n_children (nd h c2)) -> n_parent (nd h k) = Some c2;
+  mp_closed : closed (kidchans h c2) h;
+  mp_disj_o : forall o, In o (n_chans (nd h i)) -> ~ In o (kidchans h c2) /\ ~ In o (n_chans (nd h c2));
+  mp_disj_n : forall n, In n (n_chans (nd h c2)) -> ~ In n (kidchans h c2);
+  mp_nb : forall o x, In o (n_chans (nd h i)) -> In x (c_conns (ch h o)) ->
+            ~ In x (kidchans h c2) /\ ~ In x (n_chans (nd h c2)) /\ ~ In x (n_chans (nd h i));
+  mp_sym : forall o x, In o (n_chans (nd h i)) -> In o (c_conns (ch h x)) -> In x (c_conns (ch h o));
+  mp_match : forall o, In o (n_chans (nd h i)) ->
+               exists n, find_chan h c2 (c_panel (ch h o)) (c_label (ch h o)) = Some n;
+  mp_keys : NoDup (map (ckey h) (n_chans (nd h i))) }.
+
+Definition grafts (mode : mmode) (k : nkind) : bool :=
+  match mode, k with Repaired, _ => true | AsWritten, KMacro => true | _, _ => false end.
+
+Definition fresh_sub (h : heap) (i c2 : nat) (c : nat) : nat :=
+  if memn c (n_chans (nd h i)) then fresh_of h c2 c else c.
+
+Lemma sub_all_resolved h c2 : forall origs c,
+  sub_all (resolved h c2 origs) c = if memn c origs then fresh_of h c2 c else c.
+Proof.
+  induction origs as [|o r IH]; intros c; simpl; [reflexivity|].
+  unfold e_orig, e_new; simpl. unfold memn; simpl. fold (memn c r).
+  destruct (Nat.eqb c o) eqn:E; simpl.
+  - apply Nat.eqb_eq in E. now subst.
+  - apply IH.
+Qed.
+
+Lemma fresh_of_spec h c2 o n : find_chan h c2 (c_panel (ch h o)) (c_label (ch h o)) = Some n ->
+  fresh_of h c2 o = n /\ In n (n_chans (nd h c2)) /\ ckey h n = ckey h o.
+Proof.
+  intros E. unfold fresh_of. rewrite E. split; [reflexivity|].
+  apply find_chan_in in E. destruct E as (I & P & L). split; [exact I|]. unfold ckey. now rewrite P, L.
+Qed.
+
+Lemma NoDup_map_from {A B C} (f : A -> B) (g : A -> C) (k : B -> C) l :
+  (forall x, In x l -> k (f x) = g x) -> NoDup (map g l) -> NoDup (map f l).
+Proof.
+  intros E ND. apply (NoDup_map_inv k). rewrite map_map.
+  rewrite (map_ext_in _ g); [exact ND|exact E].
+Qed.
+
+(* the merge cut into its stages (definitionally the same function) *)
+Definition m_h1 (h : heap) (i : nat) : heap :=
+  fold_left (fun h k => setn h k (n_with_parent (nd h k) None None)) (n_children (nd h i)) h.
+Definition m_h2 (h : heap) (i c2 : nat) : heap :=
+  set_flags (m_h1 h i) c2 false (n_failed (nd (m_h1 h i) c2)).
+Definition m_h3 (mode : mmode) (h : heap) (i c2 : nat) : heap :=
+  let h2 := m_h2 h i c2 in
+  let n := nd h i in
+  let o := nd h2 c2 in
+  setn h2 i (mkNode (n_label o) (n_kind n) (n_parent n)
+                    (match mode with AsWritten => n_detached o | Repaired => n_detached n end)
+                    (n_exec n) (n_running o) (n_failed o) (n_children o) (n_chans o)
+                    (lookup_children h2 (n_children o) (map (fun s => n_label (nd h2 s)) (n_starting o)))).
+Definition m_h4 (mode : mmode) (h : heap) (i c2 : nat) : heap :=
+  fold_left (fun h k => adopt h i k) (n_children (nd (m_h2 h i c2) c2)) (m_h3 mode h i c2).
+Definition m_h5 (mode : mmode) (h : heap) (i c2 : nat) : heap :=
+  let h2 := m_h2 h i c2 in
+  restore_conns (m_h4 mode h i c2) i (conn_strings h2 (n_children (nd h2 c2)) PIn)
+                (conn_strings h2 (n_children (nd h2 c2)) SIn).
+Definition m_h6 (mode : mmode) (h : heap) (i c2 : nat) : heap :=
+  let h2 := m_h2 h i c2 in
+  let o := nd h2 c2 in
+  if has_links (n_kind (nd h i))
+  then forge_links (m_h5 mode h i c2) i
+         (if has_links (n_kind o) then match links_in h2 (chans_of h2 c2 PIn) with Some l => l | None => [] end else [])
+         (if has_links (n_kind o) then links_out h2 (n_children o) else [])
+  else m_h5 mode h i c2.
+Definition m_h7 (mode : mmode) (h : heap) (i c2 : nat) : heap :=
+  if grafts mode (n_kind (nd h i))
+  then fold_left (fun h o => graft_one h i o) (local_data h i) (m_h6 mode h i c2)
+  else m_h6 mode h i c2.
+Definition m_final (mode : mmode) (h : heap) (i c2 : nat) : heap :=
+  match mode with
+  | AsWritten => m_h7 mode h i c2
+  | Repaired =>
+      let h7 := m_h7 mode h i c2 in
+      let h8 := fold_left (fun h c => setc h c (c_with_owner (ch h c) i)) (n_chans (nd h7 i)) h7 in
+      fold_left (fun h o => relink_one h i o) (local_data h i) h8
+  end.
+
+Lemma merge_remote_staged mode h i c2 : merge_remote mode h i c2 = m_final mode h i c2.
+Proof.
+  unfold merge_remote, m_final, m_h7, m_h6, m_h5, m_h4, m_h3, m_h2, m_h1, local_data, grafts.
+  destruct mode, (n_kind (nd h i)); reflexivity.
+Qed.
+
+Section MergeStages.
+  Variables (mode : mmode) (h : heap) (i c2 : nat).
+  Hypothesis MP : merge_pre h i c2.
+  Let KS := kidchans h c2.
+  Let kids := n_children (nd h c2).
+
+  Lemma st1 : (forall x, ch (m_h1 h i) x = ch h x) /\
+              (forall j, ~ In j (n_children (nd h i)) -> nd (m_h1 h i) j = nd h j).
+  Proof. apply unparent_fold. Qed.
+
+  Lemma not_old_i : ~ In i (n_children (nd h i)).
+  Proof. intros I. destruct (mp_old _ _ _ MP i I) as [N _]. congruence. Qed.
+  Lemma not_old_c2 : ~ In c2 (n_children (nd h i)).
+  Proof. intros I. destruct (mp_old _ _ _ MP c2 I) as (_ & N & _). congruence. Qed.
+  Lemma not_old_kid k : In k kids -> ~ In k (n_children (nd h i)).
+  Proof. intros Ik I. destruct (mp_old _ _ _ MP k I) as (_ & _ & N). exact (N Ik). Qed.
+
+  Lemma st2_c2 : nd (m_h2 h i c2) c2 = n_with_flags (nd h c2) false (n_failed (nd h c2)).
+  Proof.
+    unfold m_h2, set_flags. rewrite nd_setn_eq. destruct st1 as [_ B]. now rewrite (B c2 not_old_c2).
+  Qed.
+  Lemma st2_other j : j <> c2 -> ~ In j (n_children (nd h i)) -> nd (m_h2 h i c2) j = nd h j.
+  Proof.
+    intros N NI. unfold m_h2, set_flags. rewrite nd_setn_neq by congruence. destruct st1 as [_ B]. now apply B.
+  Qed.
+  Lemma st2_ch x : ch (m_h2 h i c2) x = ch h x.
+  Proof. unfold m_h2, set_flags. rewrite ch_setn. apply st1. Qed.
+
+  Lemma st2_kids : n_children (nd (m_h2 h i c2) c2) = kids.
+  Proof. now rewrite st2_c2. Qed.
+
+  Lemma st3_i : nd (m_h3 mode h i c2) i =
+    mkNode (n_label (nd h c2)) (n_kind (nd h i)) (n_parent (nd h i))
+           (match mode with AsWritten => n_detached (nd h c2) | Repaired => n_detached (nd h i) end)
+           (n_exec (nd h i)) false (n_failed (nd h c2)) kids (n_chans (nd h c2))
+           (lookup_children (m_h2 h i c2) kids
+              (map (fun s => n_label (nd (m_h2 h i c2) s)) (n_starting (nd h c2)))).
+  Proof. unfold m_h3. rewrite nd_setn_eq, st2_c2. reflexivity. Qed.
+  Lemma st3_other j : j <> i -> nd (m_h3 mode h i c2) j = nd (m_h2 h i c2) j.
+  Proof. intros N. unfold m_h3. now rewrite nd_setn_neq by congruence. Qed.
+  Lemma st3_ch x : ch (m_h3 mode h i c2) x = ch h x.
+  Proof. unfold m_h3. rewrite ch_setn. apply st2_ch. Qed.
+
+  Lemma st3_kid k : In k kids -> nd (m_h3 mode h i c2) k = nd h k.
+  Proof.
+    intros Ik. assert (k <> i) by (intros ->; exact (mp_kids_i _ _ _ MP Ik)).
+    assert (k <> c2) by (intros ->; exact (mp_kids_c2 _ _ _ MP Ik)).
+    rewrite st3_other by assumption. apply st2_other; [assumption|now apply not_old_kid].
+  Qed.
+
+  Lemma st3_inv : ainv KS i c2 (m_h3 mode h i c2) (m_h3 mode h i c2) kids.
+  Proof.
+    split.
+    - intros x _. reflexivity.
+    - intros a b. rewrite !st3_ch. apply (mp_closed _ _ _ MP).
+    - intros c. reflexivity.
+    - reflexivity.
+    - intros k Ik. exists (Some c2), (n_detached (nd (m_h3 mode h i c2) k)). split; [|now left].
+      rewrite <- (node_eta (nd (m_h3 mode h i c2) k)) at 1. f_equal.
+      rewrite st3_kid by exact Ik. now apply (mp_par _ _ _ MP).
+  Qed.
+
+  Lemma kid_chans_in k a : In k kids -> In a (n_chans (nd (m_h3 mode h i c2) k)) -> In a KS.
+  Proof.
+    intros Ik Ia. rewrite st3_kid in Ia by exact Ik. unfold KS, kidchans. apply in_flat_map. now exists k.
+  Qed.
+
+  Lemma st4 :
+    let h4 := m_h4 mode h i c2 in
+    ainv KS i c2 (m_h3 mode h i c2) h4 kids /\
+    (forall k, In k kids -> n_parent (nd h4 k) = Some i) /\
+    nd h4 i = nd (m_h3 mode h i c2) i.
+  Proof.
+    unfold m_h4. rewrite st2_kids.
+    destruct (adopt_fold KS i c2 (mp_ne _ _ _ MP) (m_h3 mode h i c2) kids (mp_kids_c2 _ _ _ MP) (mp_kids_i _ _ _ MP)
+                kid_chans_in kids (m_h3 mode h i c2) (incl_refl _) st3_inv) as (A & B & _ & D).
+    split; [exact A|split; [exact B|]]. apply D; [exact (mp_kids_i _ _ _ MP)|exact (mp_ne _ _ _ MP)].
+  Qed.
+
+  Lemma st4_kids_in : kids_in KS (m_h4 mode h i c2) i.
+  Proof.
+    destruct st4 as (A & _ & E). intros k a. rewrite E, st3_i. simpl. intros Ik Ia.
+    destruct (ai_kid _ _ _ _ _ _ A k Ik) as (p & d & Ek & _). rewrite Ek in Ia.
+    apply (kid_chans_in k a Ik Ia).
+  Qed.
+
+  Lemma st5 :
+    let h5 := m_h5 mode h i c2 in
+    ks_rel KS (m_h4 mode h i c2) h5 /\ closed KS h5.
+  Proof.
+    unfold m_h5. apply restore_conns_ks; [exact st4_kids_in|]. destruct st4 as (A & _). apply A.
+  Qed.
+
+  Lemma st6_struct : struct_eq (m_h5 mode h i c2) (m_h6 mode h i c2).
+  Proof. unfold m_h6. destruct (has_links _); [apply forge_links_struct|apply struct_eq_refl]. Qed.
+
+  (* everything the grafting needs to know about the state it starts from *)
+  Lemma st6 :
+    let h6 := m_h6 mode h i c2 in
+    (forall x, ~ In x KS -> c_conns (ch h6 x) = c_conns (ch h x)) /\
+    sig_eq h h6 /\
+    nd h6 i = nd (m_h3 mode h i c2) i /\
+    closed KS h6 /\
+    (forall k, In k kids -> n_parent (nd h6 k) = Some i /\
+                            n_running (nd h6 k) = n_running (nd h k) /\ n_failed (nd h6 k) = n_failed (nd h k)).
+  Proof.
+    destruct st4 as (A4 & P4 & I4). destruct st5 as ([N5 S5 O5] & C5). destruct st6_struct as [N6 C6].
+    simpl. split; [|split; [|split; [|split]]].
+    - intros x Hx. destruct (C6 x) as [_ ->]. rewrite O5 by exact Hx.
+      rewrite (ai_off _ _ _ _ _ _ A4 x Hx). now rewrite st3_ch.
+    - intros c. destruct (C6 c) as [-> _]. rewrite S5. rewrite (ai_sig _ _ _ _ _ _ A4 c). now rewrite st3_ch.
+    - now rewrite N6, N5.
+    - intros a b Ia. destruct (C6 a) as [_ ->]. now apply C5.
+    - intros k Ik. rewrite N6, N5. split; [now apply P4|].
+      destruct (ai_kid _ _ _ _ _ _ A4 k Ik) as (p & d & Ek & _). rewrite Ek, st3_kid by exact Ik. split; reflexivity.
+  Qed.
+End MergeStages.
+
+Lemma in_resolved h c2 origs e : In e (resolved h c2 origs) ->
+  exists o, In o origs /\ e = (o, fresh_of h c2 o, c_conns (ch h o)).
+Proof. unfold resolved. rewrite in_map_iff. intros (o & E & I). exists o. split; [exact I|now symmetry]. Qed.
+
+Section MergeGraft.
+  Variables (mode : mmode) (h : heap) (i c2 : nat).
+  Hypothesis MP : merge_pre h i c2.
+  Hypothesis GR : grafts mode (n_kind (nd h i)) = true.
+  Let KS := kidchans h c2.
+  Let origs := n_chans (nd h i).
+  Let news := n_chans (nd h c2).
+
+  Lemma fresh_in o : In o origs -> In (fresh_of h c2 o) news /\ ckey h (fresh_of h c2 o) = ckey h o.
+  Proof.
+    intros Io. destruct (mp_match _ _ _ MP o Io) as [n En].
+    destruct (fresh_of_spec h c2 o n En) as (-> & I & K). now split.
+  Qed.
+
+  Lemma st7 :
+    let h7 := m_h7 mode h i c2 in
+    (forall j, nd h7 j = nd (m_h6 mode h i c2) j) /\ sig_eq h h7 /\
+    (forall x, ~ In x KS -> ~ In x news -> c_conns (ch h7 x) = map (fresh_sub h i c2) (c_conns (ch h x))) /\
+    (forall o, In o origs -> c_conns (ch h7 (fresh_of h c2 o)) = c_conns (ch h o)).
+  Proof.
+    destruct (st6 mode h i c2 MP) as (F1 & F2 & F3 & F4 & F5). fold KS in F1, F4.
+    unfold m_h7. rewrite GR. unfold local_data.
+    rewrite (graft_fold_res h c2 i (n_chans (nd h i)) (m_h6 mode h i c2)). fold origs.
+    2:{ exact (mp_match _ _ _ MP). }
+    2:{ exact F2. }
+    2:{ rewrite F3, st3_i by exact MP. reflexivity. }
+    destruct (graft_all_spec (resolved h c2 origs) (m_h6 mode h i c2)) as (G1 & G2 & G3 & G4).
+    - unfold resolved. rewrite map_map. simpl.
+      apply (NoDup_map_from (fresh_of h c2) (ckey h) (ckey h)); [|exact (mp_keys _ _ _ MP)].
+      intros o Io. apply fresh_in, Io.
+    - intros e e' Ie Ie'. apply in_resolved in Ie, Ie'. destruct Ie as (o & Io & ->), Ie' as (o' & Io' & ->).
+      unfold e_new, e_orig; simpl. intros E. destruct (fresh_in o Io) as [I _]. rewrite E in I.
+      destruct (mp_disj_o _ _ _ MP o' Io') as [_ N]. exact (N I).
+    - intros e e' Ie Ie'. apply in_resolved in Ie, Ie'. destruct Ie as (o & Io & ->), Ie' as (o' & Io' & ->).
+      unfold e_new, e_L; simpl. intros I. destruct (mp_nb _ _ _ MP o' _ Io' I) as (_ & N & _).
+      apply N. apply fresh_in, Io.
+    - intros e e' Ie Ie'. apply in_resolved in Ie, Ie'. destruct Ie as (o & Io & ->), Ie' as (o' & Io' & ->).
+      unfold e_orig, e_L; simpl. intros I. destruct (mp_nb _ _ _ MP o' _ Io' I) as (_ & _ & N). exact (N Io).
+    - intros e x Ie. apply in_resolved in Ie. destruct Ie as (o & Io & ->). unfold e_orig, e_L; simpl.
+      destruct (in_dec Nat.eq_dec x KS) as [Ix|Nx].
+      + intros I. exfalso. destruct (mp_disj_o _ _ _ MP o Io) as [N _]. apply N. exact (F4 x o Ix I).
+      + rewrite F1 by exact Nx. apply (mp_sym _ _ _ MP o x Io).
+    - simpl. split; [exact G1|split; [|split]].
+      + intros c. now rewrite G2, F2.
+      + intros x Nx Nn. rewrite G3.
+        * rewrite F1 by exact Nx. apply map_ext. intros c. unfold fresh_sub. apply sub_all_resolved.
+        * unfold resolved. rewrite map_map. simpl. intros I. apply in_map_iff in I. destruct I as (o & <- & Io).
+          apply Nn. apply fresh_in, Io.
+      + intros o Io. apply (G4 (o, fresh_of h c2 o, c_conns (ch h o))).
+        unfold resolved. apply in_map_iff. now exists o.
+  Qed.
+End MergeGraft.
+
+(* what holds after the merge (both disciplines) *)
+Definition merge_post (h : heap) (i c2 : nat) (h' : heap) : Prop :=
+  (* the node keeps its parent, its executor setting, its class; it is not running *)
+  (n_parent (nd h' i) = n_parent (nd h i) /\ n_exec (nd h' i) = n_exec (nd h i) /\
+   n_kind (nd h' i) = n_kind (nd h i) /\ n_running (nd h' i) = false) /\
+  (* it holds the copy's children and IO panels; every new child names it as parent, flags as delivered *)
+  (n_children (nd h' i) = n_children (nd h c2) /\ n_chans (nd h' i) = n_chans (nd h c2)) /\
+  (forall k, In k (n_children (nd h c2)) ->
+     n_parent (nd h' k) = Some i /\ n_running (nd h' k) = n_running (nd h k) /\ n_failed (nd h' k) = n_failed (nd h k)) /\
+  (* every old IO channel has a fresh counterpart (same panel, same label) in the node's panels, and that one
+     carries the old channel's connection list unchanged (order kept) *)
+  (forall o, In o (n_chans (nd h i)) ->
+     In (fresh_of h c2 o) (n_chans (nd h' i)) /\ ckey h' (fresh_of h c2 o) = ckey h o /\
+     c_conns (ch h' (fresh_of h c2 o)) = c_conns (ch h o)) /\
+  (* every channel outside the copy lists the fresh channel exactly where it listed the old one *)
+  (forall x, ~ In x (kidchans h c2) -> ~ In x (n_chans (nd h c2)) ->
+     c_conns (ch h' x) = map (fresh_sub h i c2) (c_conns (ch h x))).
+
+Lemma ckey_sig h h' c : csig (ch h' c) = csig (ch h c) -> ckey h' c = ckey h c.
+Proof. unfold csig, ckey. intros E. congruence. Qed.
+
+Theorem merge_spec mode h i c2 :
+  merge_pre h i c2 -> grafts mode (n_kind (nd h i)) = true ->
+  let h' := merge_remote mode h i c2 in
+  merge_post h i c2 h' /\
+  match mode with
+  | AsWritten => n_detached (nd h' i) = n_detached (nd h c2)
+  | Repaired => n_detached (nd h' i) = n_detached (nd h i) /\
+                forall n, In n (n_chans (nd h' i)) -> c_owner (ch h' n) = i
+  end.
+Proof.
+  intros MP GR. simpl. rewrite merge_remote_staged.
+  destruct (st7 mode h i c2 MP GR) as (N7 & S7 & C7 & D7).
+  destruct (st6 mode h i c2 MP) as (_ & _ & I6 & _ & K6).
+  assert (I7 : nd (m_h7 mode h i c2) i = nd (m_h3 mode h i c2) i) by (now rewrite N7).
+  pose proof (st3_i mode h i c2 MP) as E3.
+  (* the statement for any heap that agrees with h7 on nodes, connections, labels and panels *)
+  assert (POST : forall h', (forall j, nd h' j = nd (m_h7 mode h i c2) j) ->
+                            (forall x, c_conns (ch h' x) = c_conns (ch (m_h7 mode h i c2) x) /\
+                                       c_label (ch h' x) = c_label (ch (m_h7 mode h i c2) x) /\
+                                       c_panel (ch h' x) = c_panel (ch (m_h7 mode h i c2) x)) ->
+                            merge_post h i c2 h').
+  { intros h' Nn Cc. unfold merge_post. rewrite !Nn, I7, E3. simpl.
+    split; [repeat split|split; [split; reflexivity|split; [|split]]].
+    - intros k Ik. rewrite Nn, N7. apply K6, Ik.
+    - intros o Io. destruct (fresh_in h i c2 MP o Io) as [If Kf]. split; [exact If|]. split.
+      + unfold ckey. destruct (Cc (fresh_of h c2 o)) as (_ & -> & ->).
+        change (ckey (m_h7 mode h i c2) (fresh_of h c2 o) = ckey h o).
+        rewrite <- Kf. apply ckey_sig. apply S7.
+      + destruct (Cc (fresh_of h c2 o)) as (-> & _). now apply D7.
+    - intros x Nx Nn'. destruct (Cc x) as (-> & _). now apply C7. }
+  destruct mode.
+  - unfold m_final. split; [apply POST; [reflexivity|intros; repeat split]|].
+    rewrite I7, E3. reflexivity.
+  - unfold m_final.
+    set (h7 := m_h7 Repaired h i c2) in *.
+    set (h8 := fold_left (fun h0 c => setc h0 c (c_with_owner (ch h0 c) i)) (n_chans (nd h7 i)) h7).
+    destruct (owner_fold i (n_chans (nd h7 i)) h7) as (A8 & B8 & C8 & _). fold h8 in A8, B8, C8.
+    assert (R : struct_eq h8 (fold_left (fun h0 o => relink_one h0 i o) (local_data h i) h8)).
+    { apply (fold_struct (fun h0 o => relink_one h0 i o)). intros; apply relink_one_struct. }
+    destruct R as [Nr Cr]. set (h9 := fold_left _ (local_data h i) h8) in *.
+    split; [apply POST|split].
+    + intros j. now rewrite Nr, A8.
+    + intros x. destruct (Cr x) as [Sx Cx], (B8 x) as (B1 & B2 & B3).
+      rewrite Cx, B1. unfold csig in Sx. repeat split; congruence.
+    + rewrite Nr, A8, I7, E3. reflexivity.
+    + intros n In'. rewrite Nr, A8 in In'. destruct (Cr n) as [Sx _]. unfold csig in Sx.
+      replace (c_owner (ch h9 n)) with (c_owner (ch h8 n)) by congruence. now apply C8.
+Qed.
+
+(* ------------------------------------------------------------------ the hypotheses, decidably (for examples and for
+   checking that the states the harness reflects meet them) *)
+Definition key_eqb (a b : panel * string) : bool := panel_eqb (fst a) (fst b) && String.eqb (snd a) (snd b).
+Lemma key_eqb_eq a b : key_eqb a b = true <-> a = b.
+Proof.
+  destruct a as [p s], b as [q t]. unfold key_eqb; simpl. rewrite andb_true_iff, String.eqb_eq. split.
+  - intros [E ->]. destruct p, q; simpl in E; congruence.
+  - intros E. injection E as -> ->. split; [destruct q; reflexivity|reflexivity].
+Qed.
+
+Lemma memb_In {A} (eqb : A -> A -> bool) (spec : forall a b, eqb a b = true <-> a = b) x l :
+  memb eqb x l = true <-> In x l.
+Proof.
+  induction l as [|y r IH]; simpl; [split; [discriminate|tauto]|].
+  rewrite orb_true_iff, IH, spec. split; intros [H|H]; auto.
+Qed.
+Lemma nodupb_NoDup {A} (eqb : A -> A -> bool) (spec : forall a b, eqb a b = true <-> a = b) l :
+  nodupb eqb l = true -> NoDup l.
+Proof.
+  induction l as [|x r IH]; simpl; intros E; [constructor|].
+  apply andb_true_iff in E. destruct E as [E1 E2]. constructor; [|apply IH, E2].
+  intros I. apply (memb_In eqb spec) in I. rewrite I in E1. discriminate.
+Qed.
+
+Definition notin (x : nat) (l : list nat) : bool := negb (memn x l).
+Lemma notin_spec x l : notin x l = true <-> ~ In x l.
+Proof. unfold notin. rewrite negb_true_iff. apply memn_false. Qed.
+
+Definition merge_preb (h : heap) (i c2 : nat) : bool :=
+  let kids := n_children (nd h c2) in
+  let origs := n_chans (nd h i) in
+  let news := n_chans (nd h c2) in
+  let KS := kidchans h c2 in
+  negb (Nat.eqb i c2) && notin c2 kids && notin i kids &&
+  forallb (fun k => negb (Nat.eqb k i) && negb (Nat.eqb k c2) && notin k kids) (n_children (nd h i)) &&
+  forallb (fun k => match n_parent (nd h k) with Some p => Nat.eqb p c2 | None => false end) kids &&
+  forallb (fun a => forallb (fun b => memn b KS) (c_conns (ch h a))) KS &&
+  forallb (fun o => notin o KS && notin o news) origs &&
+  forallb (fun n => notin n KS) news &&
+  forallb (fun o => forallb (fun x => notin x KS && notin x news && notin x origs) (c_conns (ch h o))) origs &&
+  forallb (fun o => forallb (fun x => negb (memn o (c_conns (ch h x))) || memn x (c_conns (ch h o)))
+                            (map fst (h_chans h))) origs &&
+  forallb (fun o => match find_chan h c2 (c_panel (ch h o)) (c_label (ch h o)) with Some _ => true | None => false end) origs &&
+  nodupb key_eqb (map (ckey h) origs).
+
+Lemma assoc_none_notin {B} k (l : list (nat * B)) : ~ In k (map fst l) -> assoc Nat.eqb k l = None.
+Proof.
+  induction l as [|[k' v] r IH]; simpl; intros N; [reflexivity|].
+  destruct (Nat.eqb k k') eqn:E; [apply Nat.eqb_eq in E; subst; tauto|apply IH; tauto].
+Qed.
+
+Lemma merge_preb_sound h i c2 : merge_preb h i c2 = true -> merge_pre h i c2.
+Proof.
+  unfold merge_preb. rewrite !andb_true_iff.
+  intros (((((((((((A1 & A2) & A3) & A4) & A5) & A6) & A7) & A8) & A9) & A10) & A11) & A12).
+  rewrite forallb_forall in A4, A5, A6, A7, A8, A9, A10, A11.
+  split.
+  - apply negb_true_iff, Nat.eqb_neq in A1. exact A1.
+  - now apply notin_spec.
+  - now apply notin_spec.
+  - intros k Ik. specialize (A4 k Ik). rewrite !andb_true_iff, !negb_true_iff, !Nat.eqb_neq in A4.
+    destruct A4 as [[B1 B2] B3]. apply notin_spec in B3. tauto.
+  - intros k Ik. specialize (A5 k Ik). destruct (n_parent (nd h k)); [|discriminate].
+    apply Nat.eqb_eq in A5. now subst.
+  - intros a b Ia Ib. specialize (A6 a Ia). rewrite forallb_forall in A6. apply memn_true, A6, Ib.
+  - intros o Io. specialize (A7 o Io). rewrite andb_true_iff, !notin_spec in A7. exact A7.
+  - intros n In'. apply notin_spec, A8, In'.
+  - intros o x Io Ix. specialize (A9 o Io). rewrite forallb_forall in A9. specialize (A9 x Ix).
+    rewrite !andb_true_iff, !notin_spec in A9. tauto.
+  - intros o x Io Ix. specialize (A10 o Io). rewrite forallb_forall in A10.
+    destruct (in_dec Nat.eq_dec x (map fst (h_chans h))) as [I|N].
+    + specialize (A10 x I). rewrite orb_true_iff, negb_true_iff in A10. destruct A10 as [B|B].
+      * apply memn_false in B. tauto.
+      * now apply memn_true.
+    + exfalso. unfold ch in Ix. rewrite (assoc_none_notin _ _ N) in Ix. exact Ix.
+  - intros o Io. specialize (A11 o Io). destruct (find_chan h c2 _ _) as [n|]; [now exists n|discriminate].
+  - apply (nodupb_NoDup key_eqb key_eqb_eq), A12.
+Qed.
